@@ -215,6 +215,73 @@ def field_invariants(facts):
     _INV_CACHE[key] = out
     return out
 
+_CNT_CACHE = {}
+def monotone_counters(facts):
+    """{type: {field}}: private 64-bit integer fields that start at a literal and are only ever advanced by `+=` of a
+    literal, a `size_of`, or the length of an object in memory.  Such a field counts bytes or elements that were
+    actually delivered, so it is bounded like the size of an object in memory (and by 2^64 steps of wall-clock time)."""
+    key = id(facts)
+    if key in _CNT_CACHE: return _CNT_CACHE[key]
+    cand = {}
+    for path, adt in facts.adts.items():
+        if adt['kind'] != 'Struct' or adt.get('generic'): continue
+        for fd in adt['variants'][0]['fields']:
+            if fd['vis'] == 'priv' and norm_ty(fd['ty']) in ('usize', 'u64'): cand.setdefault(path, set()).add(fd['name'])
+    def strip(x):
+        while isinstance(x, dict) and x.get('k') in ('Scope', 'Use', 'Cast', 'NeverToAny', 'Coerce', 'Paren') and isinstance(x.get('arg'), dict): x = x['arg']
+        return x
+    def small(x):
+        x = strip(x)
+        if not isinstance(x, dict): return False
+        if x.get('k') == 'Lit' and isinstance(x.get('int'), int): return 0 <= x['int'] <= 0xffffffff
+        if x.get('k') == 'Const' and isinstance(x.get('value'), dict) and isinstance(x['value'].get('int'), int): return 0 <= x['value']['int'] <= 0xffffffff
+        if x.get('k') == 'Call':
+            c = x.get('resolved') or x.get('callee') or ''
+            return c == 'core::mem::size_of' or c.endswith('::len')
+        return False
+    def walk(x):
+        if isinstance(x, dict):
+            k = x.get('k')
+            if k in ('Assign', 'AssignOp'):
+                l = strip(x['lhs'])
+                if isinstance(l, dict) and l.get('k') == 'Field':
+                    ty = norm_ty(strip_refs(l['lhs'].get('ty', '')))
+                    if ty in cand and l.get('name') in cand[ty]:
+                        if not (k == 'AssignOp' and x.get('op') in ('Add', 'AddAssign') and small(x['rhs'])): cand[ty].discard(l['name'])
+            elif k == 'Adt' and x.get('adt') in cand:
+                for fd in x.get('fields', []):
+                    if fd['name'] in cand[x['adt']] and not small(fd['e']): cand[x['adt']].discard(fd['name'])
+                if 'base' in x: cand[x['adt']].clear()
+            elif k == 'Borrow' and x.get('mut'):
+                a = strip(x.get('arg'))
+                if isinstance(a, dict) and a.get('k') == 'Field':
+                    ty = norm_ty(strip_refs(a['lhs'].get('ty', '')))
+                    if ty in cand: cand[ty].discard(a.get('name'))     # a &mut to the field escapes: no claim
+            for v in x.values(): walk(v)
+        elif isinstance(x, list):
+            for v in x: walk(v)
+    for d, b in facts.bodies.items():
+        if b.get('body') is not None and not b.get('derived'): walk(b['body'])
+    out = {p: s for p, s in cand.items() if s}
+    _CNT_CACHE[key] = out
+    return out
+
+def counter_atoms(v, counters, out, seen=None):
+    """atoms that stand for monotone-counter fields of the struct values reachable from v"""
+    if seen is None: seen = set()
+    if id(v) in seen: return out
+    seen.add(id(v))
+    if isinstance(v, RefV): return counter_atoms(v.place.get(), counters, out, seen)
+    if isinstance(v, StructV):
+        for k, x in v.fields.items():
+            if k in counters.get(v.path, ()) and is_term(x) and x[0] == 'a': out.add(x)
+            counter_atoms(x, counters, out, seen)
+    elif isinstance(v, EnumV):
+        for x in v.fields.values(): counter_atoms(x, counters, out, seen)
+    elif isinstance(v, TupleV):
+        for x in v.items: counter_atoms(x, counters, out, seen)
+    return out
+
 def _assigns_field_of(e, ty):
     found = [False]
     def walk(x):
